@@ -175,13 +175,16 @@ def check(case, rec=None):
             compare("score_and_assign loop from zero-initialised labels", labels, drlv2, ref1, 1.0, fails)
         # ---- indexer.fight_over_peaks
         cImageD11.cimaged11_omp_set_num_threads(case["threads"][-1])
-        ix = indexing.indexer(gv=gv, hkl_tol=tol)
+        # max_grains limits how many orientations one search pass may add, not how many compete for the peaks
+        mg = [100, 100, max(1, ng // 2), 1, ng][case["seed"] % 5]
+        ix = indexing.indexer(gv=gv, hkl_tol=tol, max_grains=mg)
         ix.ubis = [u.copy() for u in ubis]
         ok, e = guard(ix.fight_over_peaks)
         if not ok:
             fails.append(exc_failure("fight_over_peaks", e))
         else:
-            compare("indexer.fight_over_peaks", ix.ga, ix.drlv2, ref, 2.0, fails)
+            compare("indexer.fight_over_peaks (max_grains=%d, %d orientations)" % (mg, ng), ix.ga, ix.drlv2, ref, 2.0,
+                    fails)
             hist = np.bincount(np.asarray(ix.ga)[np.asarray(ix.ga) >= 0], minlength=ng)
             if len(ix.gas) != ng or not np.array_equal(np.asarray(ix.gas), hist):
                 fails.append(fail("histogram", "fight_over_peaks: per-grain counts %s differ from the histogram of "
@@ -313,6 +316,12 @@ def check_al(case, rec=None):
     cf = columnfile.colfile_from_dict({"sc": sc.copy(), "fc": fc.copy(), "omega": om.copy(),
                                        "drlv2": np.ones(n), "labels": np.ones(n) - 2,
                                        "sum_intensity": np.ones(n), "Number_of_pixels": np.ones(n)})
+    if case["seed"] % 3 == 0:
+        # a peak file that already carries lab coordinates from an earlier, different geometry (saved by another
+        # program run): the assignment works from sc, fc and the current parameters
+        stale = O.geo_xyz_lab(sc, fc, dict(p, distance=p["distance"] * 1.02, y_center=p["y_center"] + 3.0))
+        for k, nm in enumerate(("xl", "yl", "zl")):
+            cf.addcolumn(stale[k].copy(), nm)
     o.scannames = ["scan"]
     o.scantitles["scan"] = list(cf.titles)
     o.scandata["scan"] = cf
